@@ -268,9 +268,16 @@ func (c *Conn) CreateMessage(ctx context.Context, cache connector.IMAPStateWrite
 	return imap.Message{ID: id, Flags: flags, Date: date}, literal, nil
 }
 
+func sorted(ids []imap.MessageID) []imap.MessageID {
+	out := append([]imap.MessageID(nil), ids...)
+	sort.Slice(out, func(i, j int) bool { return out[i] < out[j] })
+	return out
+}
+
 func (c *Conn) AddMessagesToMailbox(ctx context.Context, cache connector.IMAPStateWrite, messageIDs []imap.MessageID, mboxID imap.MailboxID) error {
 	c.mu.Lock()
 	defer c.mu.Unlock()
+	messageIDs = sorted(messageIDs)
 	c.Calls = append(c.Calls, fmt.Sprintf("AddMessagesToMailbox %v %v", messageIDs, mboxID))
 	if c.answer("AddMessagesToMailbox") != "ok" {
 		return ErrInjected
@@ -287,6 +294,7 @@ func (c *Conn) AddMessagesToMailbox(ctx context.Context, cache connector.IMAPSta
 func (c *Conn) RemoveMessagesFromMailbox(ctx context.Context, cache connector.IMAPStateWrite, messageIDs []imap.MessageID, mboxID imap.MailboxID) error {
 	c.mu.Lock()
 	defer c.mu.Unlock()
+	messageIDs = sorted(messageIDs)
 	c.Calls = append(c.Calls, fmt.Sprintf("RemoveMessagesFromMailbox %v %v", messageIDs, mboxID))
 	if c.answer("RemoveMessagesFromMailbox") != "ok" {
 		return ErrInjected
@@ -303,6 +311,7 @@ func (c *Conn) RemoveMessagesFromMailbox(ctx context.Context, cache connector.IM
 func (c *Conn) MoveMessages(ctx context.Context, cache connector.IMAPStateWrite, messageIDs []imap.MessageID, mboxFromID, mboxToID imap.MailboxID) (bool, error) {
 	c.mu.Lock()
 	defer c.mu.Unlock()
+	messageIDs = sorted(messageIDs)
 	c.Calls = append(c.Calls, fmt.Sprintf("MoveMessages %v %v->%v", messageIDs, mboxFromID, mboxToID))
 	ans := c.answer("MoveMessages")
 	if ans == "fail" {
@@ -323,6 +332,7 @@ func (c *Conn) MoveMessages(ctx context.Context, cache connector.IMAPStateWrite,
 func (c *Conn) mark(kind string, messageIDs []imap.MessageID, flag string, on bool) error {
 	c.mu.Lock()
 	defer c.mu.Unlock()
+	messageIDs = sorted(messageIDs)
 	c.Calls = append(c.Calls, fmt.Sprintf("%s %v %v", kind, messageIDs, on))
 	if c.answer(kind) != "ok" {
 		return ErrInjected
